@@ -60,6 +60,9 @@ func genBWorld(r *Rng, faulty bool) (*BWorld, []BOp) {
 			reg.Err = true
 		}
 		n := 1 + r.Intn(4)
+		if faulty && r.Chance(12) {
+			n = 0 // a registered package with nothing published
+		}
 		start := r.Intn(len(bVerPool))
 		for k := 0; k < n; k++ {
 			v := BVer{Ver: bVerPool[(start+k*3)%len(bVerPool)]}
@@ -375,8 +378,14 @@ func init() {
 				os.MkdirAll(target, 0755)
 				defer os.RemoveAll(target)
 				env := newEnv(c.World)
+				op := "builder "
+				if i%5 == 4 {
+					// a tracer that has no Diagnostics callback
+					env.noDiagCb = true
+					op = "builder-notd "
+				}
 				run := runBuild(c.World, c.Ops, target, env)
-				reqs[i] = "builder " + c.World.Encode() + " " + encOps(c.World, c.Ops)
+				reqs[i] = op + c.World.Encode() + " " + encOps(c.World, c.Ops)
 				human[i] = c
 				if run.timeout {
 					impl[i] = "timeout"
@@ -418,6 +427,19 @@ func judgeBuild(rep *Report, c *bCase, run *bRun, i int) {
 	}
 	fail := func(prop, what string) {
 		rep.AddOracle(OracleFailure{Property: prop, Lane: "builder", What: what, Input: c, ReqIdx: i + 1})
+	}
+	// C12: finder diagnostics reach the caller with package-relative file names rewritten as source
+	// addresses inside the analysed package (a rewritten name is never itself a valid sub-path)
+	for _, ds := range run.diagsRaw {
+		for _, d := range ds {
+			switch d.Description().Summary {
+			case "Cannot resolve module registry package", "Cannot install source package", "Invalid relative source address":
+				continue
+			}
+			if s := d.Source().Subject; s != nil && sourceaddrs.ValidSubPath(s.Filename) {
+				fail("C12", fmt.Sprintf("finder diagnostic %q reached the caller with the package-relative file name %q, not rewritten as a source address", d.Description().Summary, s.Filename))
+			}
+		}
 	}
 	// C14: bracketing always; exactly-once in fault-free builds
 	for _, p := range checkTrace(run.env.log, !errs) {
